@@ -20,3 +20,13 @@ package registry
 //verif:ensures[match] err == nil ==> len(wantBytes) == 32 && forall k in [0, 32): got[k] == wantBytes[k]
 //verif:loop 0 vars j
 //verif:loop 0 invariant j < 32 && len(wantBytes) == 32 && forall k in [0, j+1): got[k] == wantBytes[k]
+
+// C19: every file or directory an archive entry creates is destDir joined with
+// the CLEANED entry name, and only after that cleaned name was checked not to be
+// absolute, "..", or to start with "../"; links are refused; files are created
+// exclusively (O_EXCL).
+//verif:def confined(destDir, cleanName, hdr) = cleanName == path_clean(hdr.Name) && !path_isabs(cleanName) && cleanName != ".." && !has_prefix(cleanName, "../")
+//verif:func ExtractBinary(archivePath, destDir) (bin, err)
+//verif:call[mkdir-confined] os.MkdirAll requires confined(destDir, cleanName, hdr) && arg0 == path_dir(path_join(destDir, cleanName)) && hdr.Typeflag == 48
+//verif:call[create-confined-excl] os.OpenFile requires confined(destDir, cleanName, hdr) && arg0 == path_join(destDir, cleanName) && arg1 == 193 && hdr.Typeflag == 48
+//verif:ensures[result-confined] err == nil ==> bin == path_join(destDir, candidate) && candidate != ""
